@@ -48,13 +48,21 @@ NAMES = {
     "modules": {"S1": "math", "S2": "S2", "k1": "scipy", "k2": "k2", "d": "numpy", "f": "fd", "C": "comp"},
     # legal ids that are Python builtins the generated code itself calls for MathML max / min / abs / pow
     "builtins": {"S1": "S1", "S2": "S2", "k1": "k1", "k2": "min", "d": "max", "f": "fd", "C": "pow"},  # (a function definition called abs is not expressible in the L3 formula syntax)
+    # builtins next to elements literally called <builtin>_ (the spelling the generator falls back to for a builtin)
+    "builtin-siblings": {"S1": "min", "S2": "min_", "k1": "max", "k2": "max_", "d": "abs_", "f": "fd", "C": "pow_"},
+    "builtin-siblings-2": {"S1": "sum_", "S2": "sum", "k1": "id_", "k2": "id", "d": "abs_", "f": "fd", "C": "len_"},
     # a reserved id (renamed to <id>_fn by the generator) next to an element that is literally called <id>_fn
     "reserved-fn": {"S1": "S1", "S2": "S2", "k1": "k1", "k2": "scipy_fn", "d": "math_fn", "f": "fd", "C": "comp", "r1": "math", "r2": "scipy"},
     # legal ids that coincide with names the importer's code generator makes up (init_<id> for initial assignments)
     "internal-S1": {"S1": "S1", "S2": "S2", "k1": "k1", "k2": "k2", "d": "init_S1", "f": "fd", "C": "comp"},
     "internal-k2": {"S1": "S1", "S2": "S2", "k1": "k1", "k2": "k2", "d": "init_k2", "f": "init_kq1", "C": "comp"},
 }
-LAWS = ["ma", "ma-comp", "piecewise", "power", "exp", "ln", "fcall", "sqrt", "piconst", "rootsq", "abs", "minmax", "fracpow"]
+# more sibling pairs: which of the two comes first in a generated argument list is up to the set order of the symbols,
+# so several names are needed to see both orders
+for _i, (_b1, _b2) in enumerate([("abs", "pow"), ("len", "all"), ("any", "int"), ("map", "set"), ("str", "bin"), ("hex", "oct")], start=3):
+    NAMES[f"builtin-siblings-{_i}"] = {"S1": _b1, "S2": _b1 + "_", "k1": _b2, "k2": _b2 + "_", "d": "d1", "f": "fd", "C": "comp"}
+SIBLINGS = [n for n in NAMES if n.startswith("builtin-siblings")]
+LAWS = ["ma", "ma-comp", "piecewise", "power", "exp", "ln", "fcall", "sqrt", "piconst", "rootsq", "abs", "minmax", "fracpow", "allnames", "compsum"]
 STOICH = ["one", "two", "half", "rule"]
 K2 = ["const", "rule", "ia"]
 
@@ -92,6 +100,10 @@ def law_expr(law, nm, use_d):
         return f"{k} * max({S1}, {nm['S2']}) + min({S1}, 0.75)", lambda e: val(e) * max(e["S1"], e["S2"]) + min(e["S1"], 0.75)
     if law == "fracpow":
         return f"{k} * (({S1} - {nm['S2']})^2)^0.25 + {S1}", lambda e: val(e) * math.sqrt(abs(e["S1"] - e["S2"])) + e["S1"]
+    if law == "allnames":  # both species and both parameters in ONE expression
+        return (f"{k} * {S1} - {nm['k2']} * {nm['S2']} / 3", lambda e: val(e) * e["S1"] - e["k2"] * e["S2"] / 3)
+    if law == "compsum":  # the compartment in a position where the law is not proportional to it
+        return (f"{k} * {S1} / ({nm['C']} + 1)", lambda e: val(e) * e["S1"] / (V + 1))
     if law == "piconst":
         return f"{k} * pi * {S1} + exponentiale * 0.125", lambda e: val(e) * math.pi * e["S1"] + math.e * 0.125
     raise ValueError(law)
@@ -276,6 +288,12 @@ def generate(tier):
     for hosu, k2, ruled, law in it.product((0, 1), K2, (0, 1), ("ma", "minmax", "abs", "power", "fcall", "ma-comp")):
         add(names="builtins", hosu=hosu, k2=k2, ruled=ruled, law=law, fdef=int(law == "fcall"))
         add(names="reserved-fn", hosu=hosu, k2=k2, ruled=ruled, law=law, fdef=int(law == "fcall"))
+        add(names="builtin-siblings", hosu=hosu, k2=k2, ruled=ruled, law=law, fdef=int(law == "fcall"))
+        add(names="builtin-siblings-2", hosu=hosu, k2=k2, ruled=ruled, law=law, fdef=int(law == "fcall"))
+    for names, hosu, k2, ruled in it.product(("plain", "builtins", "keyword", "reserved-fn", *SIBLINGS), (0, 1), K2, (0, 1)):
+        add(names=names, hosu=hosu, k2=k2, ruled=ruled, law="allnames")
+    for hosu, init, st in it.product((0, 1), ("conc", "amount"), ("one", "half")):
+        add(hosu=hosu, init=init, stoich=st, law="compsum")
     # compartment whose size attribute (1) is overridden by an initial assignment (2)
     for compia, hosu, init, law, st, names in it.product(("const", "expr"), (0, 1), ("conc", "amount"), ("ma", "ma-comp", "piecewise"), ("one", "half", "rule"), ("plain", "keyword")):
         add(compia=compia, hosu=hosu, init=init, law=law, stoich=st, names=names)
@@ -313,7 +331,8 @@ def compare(m, c, txt, nt):
     # locate each species: under its id (or a consistent renaming of it)
     var_of = {}
     for s in ("S1", "S2"):
-        cand = [v for v in ic if v == nm[s] or v.strip("_") == nm[s].strip("_") or v.rstrip("_") == nm[s]]
+        # the id itself first; a consistent renaming only when the id is not there
+        cand = [v for v in ic if v == nm[s]] or [v for v in ic if v.strip("_") == nm[s].strip("_") or v.rstrip("_") == nm[s]]
         if not cand:
             return outcome(False, "species-lost", symptom="species-not-found", nontrivial=nt, detail=f"no variable for species {nm[s]!r} among {sorted(ic)} | {txt}")
         var_of[s] = cand[0]
@@ -341,7 +360,7 @@ def compare(m, c, txt, nt):
     # parameters
     for pname in ("k1", "k2") + (("kq1", "kq2") if c.get("iachain") else ()):
         nm = {**nm, "kq1": "kq1", "kq2": "kq2"}
-        cand = [n for n in pv.index if n == nm[pname] or n.rstrip("_") == nm[pname] or n.strip("_") == nm[pname].strip("_")]
+        cand = [n for n in pv.index if n == nm[pname]] or [n for n in pv.index if n.rstrip("_") == nm[pname] or n.strip("_") == nm[pname].strip("_")]
         if not cand:
             return outcome(False, "parameter-lost", symptom="parameter-not-found", nontrivial=nt, detail=f"{nm[pname]!r} not among {list(pv.index)} | {txt}")
         if not _close(float(pv[cand[0]]), ref[pname]):
@@ -458,6 +477,7 @@ PREDICATES = {
     "C17-pysbml-constant-names": lambda c: c["names"] == "mathconst",
     "C17-pysbml-substance-only-initial-assignment": lambda c: bool(c["hosu"]) and bool(c["sia"]),
     "C17-pysbml-concentration-under-compartment-initial-assignment": lambda c: bool(c.get("compia")) and not c["hosu"] and c["init"] == "conc",
+    "C17-pysbml-compartment-inside-sum": lambda c: c["law"] == "compsum" and not c["hosu"] and c["init"] == "amount",
 }
 
 
